@@ -270,10 +270,12 @@ def run(args):
             if SETTINGS.plot_pose_correspondences:
                 synced_refs[name] = ref_traj_tmp
 
-    if args.transform_left or args.transform_right:
-        tf_type = "left" if args.transform_left else "right"
-        tf_path = args.transform_left \
-                if args.transform_left else args.transform_right
+    # Each given transformation is applied on its own side
+    # (also if both --transform_left and --transform_right are given).
+    for tf_type, tf_path in (("left", args.transform_left),
+                             ("right", args.transform_right)):
+        if not tf_path:
+            continue
         transform = file_interface.load_transform(tf_path)
         if args.invert_transform:
             # The loaded transformation can be SE(3) or Sim(3).
@@ -285,7 +287,7 @@ def run(args):
         logger.debug("Applying a {}-multiplicative transformation:\n{}".format(
             tf_type, transform))
         for traj in trajectories.values():
-            traj.transform(transform, right_mul=args.transform_right,
+            traj.transform(transform, right_mul=(tf_type == "right"),
                            propagate=args.propagate_transform)
 
     # Note: projection is done after potential alignment & transformation steps.
